@@ -17,9 +17,9 @@ PID = "C13"
 #            #closed hosts, #open hosts, #inserted trees per nonterminal
 TIERS = {
     "quick": dict(
-        plan={"ASSGN2": (8, 30, 7, 19, 3, 7, 5, 7, 3), "XMLISH": (7, 30, 6, 20, 3, 9, 5, 7, 3), "CSVISH": (8, 22, 7, 16, 3, 6, 5, 7, 3),
-              "NULLABLE": (8, 16, 7, 13, 3, 6, 4, 6, 3), "LEFTREC": (7, 22, 6, 16, 3, 6, 4, 6, 3), "AMBIG": (6, 15, 5, 13, 3, 5, 3, 5, 3),
-              "RIGHTREC": (8, 20, 7, 16, 3, 6, 3, 5, 3)},
+        plan={"ASSGN2": (8, 30, 7, 19, 3, 7, 6, 9, 4), "XMLISH": (7, 30, 6, 20, 3, 9, 6, 9, 4), "CSVISH": (8, 22, 7, 16, 3, 6, 6, 9, 4),
+              "NULLABLE": (8, 16, 7, 13, 3, 6, 4, 7, 3), "LEFTREC": (7, 22, 6, 16, 3, 6, 5, 8, 3), "AMBIG": (6, 15, 5, 13, 3, 5, 4, 6, 3),
+              "RIGHTREC": (8, 20, 7, 16, 3, 6, 4, 6, 3), "NUM": (7, 18, 6, 14, 3, 6, 3, 4, 2), "MULTICHAR": (3, 8, 3, 8, 2, 3, 3, 4, 2)},
         cap=20, task_timeout=300),
     "thorough": dict(
         plan={"ASSGN2": (9, 34, 8, 22, 4, 9, 26, 40, 6), "XMLISH": (8, 34, 7, 24, 3, 9, 26, 40, 6), "CSVISH": (8, 24, 7, 18, 3, 7, 26, 40, 6),
@@ -188,7 +188,7 @@ def run(chk, pairs, masks=MASKS, max_num_solutions=50):
         judged = 0
         for r in rs:
             chk.add_tlc(r)
-            for _, pid, nres, nbad, inok, dupids in r.tuples("CALL"):
+            for _, pid, nres, nbad, inok, dupids, holes in r.tuples("CALL"):
                 judged += 1
                 if not inok:
                     raise RuntimeError("C13: generated (host, tree) pair is not a valid input: pid %d" % pid)
@@ -197,6 +197,7 @@ def run(chk, pairs, masks=MASKS, max_num_solutions=50):
                 chk.cov["evaluations"] += nobs
                 chk.note("distinct_results_judged", nres)
                 chk.note("results_with_duplicate_ids", dupids)
+                chk.note("results_where_a_hole_of_the_inserted_tree_was_filled_by_another_node", holes)
                 p = bypid[pid]
                 if nres:
                     chk.nontrivial(pid)
@@ -210,7 +211,7 @@ def run(chk, pairs, masks=MASKS, max_num_solutions=50):
                 # the smallest mask that produces the result names the method responsible
                 single = [m for m in ms if m in (1, 2, 4)]
                 sig = {"clause": why, "method": MASK_NAMES[single[0]] if single else "mask-%d" % ms[0],
-                       "host": p["host_kind"], "ins": p["ins_kind"]}
+                       "ins": "leaf" if p["ins_kind"] == "leaf" else "nonleaf"}
                 chk.mismatch(sig, {"grammar_name": p["grammar"], "grammar": catalogue.GRAMMARS.get(p["grammar"]), "g": p["g"],
                                    "host": p["host"], "ins": p["ins"], "host_kind": p["host_kind"], "ins_kind": p["ins_kind"], "ins_nt": p["ins_nt"],
                                    "masks": ms, "max_num_solutions": max_num_solutions, "result": uniq[j - 1],
